@@ -32,6 +32,8 @@ type Opts struct {
 //
 //	Mode ""      : Kind on Text with Opts, destination pre-state Pre
 //	Mode "agree" : Kind and Kind2 on the same Text and Opts must take the same reading
+//	Mode "seq"   : Calls executed one after the other on ONE CSVConsumer / CSVProducer built with
+//	               Opts; every call must give what it gives on a fresh instance
 type Case struct {
 	Mode  string `json:"mode,omitempty"`
 	Kind  string `json:"kind"`
@@ -39,6 +41,14 @@ type Case struct {
 	Text  string `json:"text"`
 	Opts  Opts   `json:"opts"`
 	Pre   int    `json:"pre,omitempty"`
+	Calls []Call `json:"calls,omitempty"`
+}
+
+// Call is one Consume / Produce call of a shared-instance sequence.
+type Call struct {
+	Kind string `json:"kind"`
+	Text string `json:"text"`
+	Pre  int    `json:"pre,omitempty"`
 }
 
 // ref is one acceptable result: the parser's error, or the records.
@@ -505,8 +515,67 @@ func (x *ctx) evalSingle(kind string, o Opts, pre int) (v verdict, applicable bo
 	return x.judge(kind, o, pre, out), true
 }
 
+// seqVerdict compares the outcomes of a shared-instance sequence with the fresh-instance
+// outcome keys of the same calls.
+func seqVerdict(c Case, outs []Outcome, fresh []string) (class, what string) {
+	for i, call := range c.Calls {
+		got := outKey(call.Kind, outs[i])
+		if got == fresh[i] {
+			continue
+		}
+		before := "nothing"
+		if i > 0 {
+			before = fmt.Sprintf("%d earlier call(s), the last one (%s, text %q)", i, c.Calls[i-1].Kind, c.Calls[i-1].Text)
+		}
+		return fmt.Sprintf("instance-state/call-%d-differs-from-fresh-instance", i+1),
+			fmt.Sprintf("call %d (%s, text %q) on a codec instance that already served %s: got %s; the same call on a fresh instance: %s",
+				i+1, call.Kind, call.Text, before, got, fresh[i])
+	}
+	return "", ""
+}
+
+// seqVerdictAt: call j of the sequence gave `out`, its fresh-instance key is `fresh`.
+func seqVerdictAt(c Case, j int, out Outcome, fresh string) (class, what string) {
+	outs := make([]Outcome, j+1)
+	fr := make([]string, j+1)
+	for q := 0; q < j; q++ {
+		fr[q] = outKey(c.Calls[q].Kind, outs[q]) // earlier calls are known to be equal: make them compare equal
+	}
+	outs[j], fr[j] = out, fresh
+	return seqVerdict(c, outs, fr)
+}
+
+func checkSeq(c Case) (class, what string) {
+	if len(c.Calls) == 0 {
+		return "", "not applicable: empty sequence"
+	}
+	opts := codecOpts(c.Opts)
+	fresh := make([]string, len(c.Calls))
+	for i, call := range c.Calls {
+		if isConsume(call.Kind) != isConsume(c.Calls[0].Kind) {
+			return "", "not applicable: a sequence runs on one consumer or on one producer"
+		}
+		table, ok := seqTable(call, c.Opts)
+		if !ok {
+			return "", "not applicable: the text does not parse, no record table exists"
+		}
+		fresh[i] = outKey(call.Kind, run(nil, opts, call.Kind, call.Text, c.Opts, call.Pre, table))
+	}
+	outs, hang := horizon(3, func() []Outcome { return runSeq(opts, c.Opts, c.Calls) })
+	if hang {
+		return "hang", "the sequence does not return: no return within 30 s (3 of 3)"
+	}
+	if cl, what := seqVerdict(c, outs, fresh); cl != "" {
+		return cl, what
+	}
+	return "", "ok: every call equals its fresh-instance result: " + strings.Join(fresh, " | ")
+}
+
 // check is the pure function behind both the explorer and --replay.
 func check(c Case) (class, what string) {
+	if c.Mode == "seq" {
+		return checkSeq(c)
+	}
 	x := newCtx(c.Text)
 	v, ok := x.evalSingle(c.Kind, c.Opts, c.Pre)
 	if !ok {
